@@ -91,6 +91,11 @@ pub struct IterCase {
     /// old ids a second time (documented as a no-op)
     #[serde(default)]
     pub stale_unregister: bool,
+    /// consumer mode 3 only (the instance is built over a harness socket pair): 0 stream,
+    /// 1 datagram, 2 seqpacket - `with_pipe` only asks for send/recv support, and the self-pipe
+    /// module documents all three kinds
+    #[serde(default)]
+    pub pipe_kind: u8,
 }
 
 pub fn strategy(with_close: bool) -> BoxedStrategy<IterCase> {
@@ -172,7 +177,9 @@ pub fn strategy(with_close: bool) -> BoxedStrategy<IterCase> {
             }
             let n = others.len() + 1;
             let nested = nested.into_iter().map(|(t, at, sig, on)| INested { thread: t % n, at, sig, on }).collect();
-            IterCase { exf, consumer, polls, init, others, nested, schedule, late, failed_ctor, handoff, stretch, plain_first, hold, stale_unregister }
+            // derived from values already drawn (keeps the random stream of every other field)
+            let pipe_kind = if consumer % 5 == 3 { (polls + exf + schedule.len() as u8) % 3 } else { 0 };
+            IterCase { exf, consumer, polls, init, others, nested, schedule, late, failed_ctor, handoff, stretch, plain_first, hold, stale_unregister, pipe_kind }
         })
         .boxed()
 }
@@ -635,7 +642,18 @@ pub fn execute(case: &IterCase) -> (RunResult, CaseReport) {
             sim_deliver(SIGS[x.sig as usize % 3], false);
         }));
     }
-    let (rd, wr) = UnixStream::pair().expect("pair");
+    let (rd, wr) = if case.consumer % 5 == 3 && case.pipe_kind % 3 != 0 {
+        // a datagram / seqpacket pair behind the same owner type (only the descriptor matters to
+        // the library: it sends and receives with MSG_DONTWAIT)
+        use std::os::unix::io::FromRawFd;
+        let ty = if case.pipe_kind % 3 == 1 { libc::SOCK_DGRAM } else { libc::SOCK_SEQPACKET };
+        let mut fds = [0i32; 2];
+        let rc = unsafe { libc::socketpair(libc::AF_UNIX, ty | libc::SOCK_CLOEXEC, 0, fds.as_mut_ptr()) };
+        assert_eq!(rc, 0, "socketpair");
+        unsafe { (UnixStream::from_raw_fd(fds[0]), UnixStream::from_raw_fd(fds[1])) }
+    } else {
+        UnixStream::pair().expect("pair")
+    };
     let (tx, rx) = std::sync::mpsc::channel::<Handle>();
     let rx = Arc::new(std::sync::Mutex::new(rx));
     let handle_slot: Arc<std::sync::Mutex<Option<Handle>>> = Arc::new(std::sync::Mutex::new(None));
